@@ -15,10 +15,12 @@ import (
 // C10 — internal key encoding is reversible and order-preserving.  Pure functions: bounded-exhaustive
 // enumeration of inputs (no scheduler involved).
 
-var c10Alphabet = []byte{0x25, '/', '0', 'a', 0xfe, 0xff}
+// the alphabet holds the smallest allowed byte, the path separator, a digit, a letter, the two largest bytes and
+// the bytes the implementation itself treats specially (the internal magic prefix is 57 fb 80 8b)
+var c10Alphabet = []byte{0x25, '/', '0', 0x57, 'a', 0xfe, 0xff}
 var c10Revs = []uint64{0, 1, 2, 0xff, 0x100, 1 << 32, 1 << 63, ^uint64(0) - 1, ^uint64(0)}
 
-var c10AlphabetWide = []byte{0x25, '/', '0', 'a', 0x80, 0xfe, 0xff}
+var c10AlphabetWide = []byte{0x25, '/', '0', 0x57, 'a', 0x80, 0x8b, 0xfb, 0xfe, 0xff}
 
 func c10Keys(maxLen int) [][]byte {
 	out := [][]byte{{}}
@@ -204,8 +206,8 @@ func init() {
 	mc.Register(&mc.Property{
 		ID:     "C10",
 		Level:  "exploration",
-		Rule:   "bounded-exhaustive input enumeration: all byte strings of length 0..L over {0x25,'/','0','a',0xfe,0xff} x 9 revisions (0,1,2,0xff,0x100,2^32,2^63,2^64-2,2^64-1): round trip for every (key,revision), byte order = (key,revision) order for ALL ordered pairs, range bounds for ALL (start,end,key) triples x 3 revisions, prefix bounds for all (prefix,key) pairs, ParseRevision for lengths 0..12; a case is one evaluated (pair|triple) and all are distinct",
-		Assume: []string{"keys over bytes greater than '$' only (the documented alphabet); bytes between the sampled ones behave like their neighbours (the functions only compare and copy bytes)"},
+		Rule:   "bounded-exhaustive input enumeration: all byte strings of length 0..L over {0x25,'/','0','W','a',0xfe,0xff} (thorough: plus 0x80,0x8b,0xfb, i.e. every byte of the internal magic prefix) x 9 revisions (0,1,2,0xff,0x100,2^32,2^63,2^64-2,2^64-1): round trip for every (key,revision), byte order = (key,revision) order for ALL ordered pairs, range bounds for ALL (start,end,key) triples x 3 revisions, prefix bounds for all (prefix,key) pairs, ParseRevision for lengths 0..12; a case is one evaluated (pair|triple) and all are distinct",
+		Assume: []string{"keys over bytes greater than '$' only (the documented alphabet); bytes between the sampled ones behave like their neighbours (the functions only compare and copy bytes); the bytes of the coder's own magic prefix are in the alphabet"},
 		Exec:   c10Exec,
 		Drive: func(c *mc.Ctx) {
 			maxLen, triLen := 4, 3
